@@ -234,8 +234,11 @@ func init() {
 		return []*consensus.Network{chain.Spec("mixed").Network(chain.NewKeys(Seed))}
 	})
 	ujson("consensus.V2FileContractElementDiff", textValues[consensus.V2FileContractElementDiff])
-	ujson("consensus.ApplyUpdate", func() []*consensus.ApplyUpdate { return chainTake(chainVals().Applies, 2) })
-	ujson("consensus.RevertUpdate", func() []*consensus.RevertUpdate { return chainTake(chainVals().Reverts, 1) })
+	// compact hand-written updates carry the integer-keyed maps (tree heights) that short chains leave empty
+	ujson("consensus.ApplyUpdate", func() []*consensus.ApplyUpdate { return chainTake(chainVals().Applies, 2) },
+		`{"siacoinElements":null,"chainIndexElement":{"id":"36bf12182ae15d914ee5cd194bdd375769c97f564b9bcf882826bf6a9587fc81","stateElement":{"leafIndex":2},"chainIndex":{"height":1,"id":"36bf12182ae15d914ee5cd194bdd375769c97f564b9bcf882826bf6a9587fc81"}},"updatedLeaves":{"0":[],"1":[{"leafIndex":0,"merkleProof":[],"elementHash":"3f40e8405e1fff0720e0c5f64e0cd948763f7c2a33b889df688450306e6251b5","spent":true}]},"treeGrowth":{"0":["62468e31975a2b39883b99aa3a9c6daf5e7ffae6999e930a5bad6f3c82a4957a"],"1":[]},"oldNumLeaves":2,"numLeaves":3}`)
+	ujson("consensus.RevertUpdate", func() []*consensus.RevertUpdate { return chainTake(chainVals().Reverts, 1) },
+		`{"siacoinElements":null,"chainIndexElement":{"id":"36bf12182ae15d914ee5cd194bdd375769c97f564b9bcf882826bf6a9587fc81","stateElement":{"leafIndex":2},"chainIndex":{"height":1,"id":"36bf12182ae15d914ee5cd194bdd375769c97f564b9bcf882826bf6a9587fc81"}},"updatedLeaves":{"0":[],"1":[{"leafIndex":0,"merkleProof":[],"elementHash":"3f40e8405e1fff0720e0c5f64e0cd948763f7c2a33b889df688450306e6251b5","spent":false}]},"numLeaves":2}`)
 	ujson("rhp/v2.HostSettings", textValues[rhp2.HostSettings])
 	ujson("rhp/v3.SettingsID", textValues[rhp3.SettingsID])
 	ujson("rhp/v3.HostPriceTable", textValues[rhp3.HostPriceTable])
